@@ -44,5 +44,17 @@ PROPS["C20"] = {
 }
 
 
+PROPS["C16"] = {
+    "level": "proof",
+    "verus": [],
+    "kani": ["dvi_codec"],
+    "unverified_callers": [
+        "String::from_utf8_lossy on non-UTF-8 comment/area/name bytes (lossy by design; string forms only bounded)",
+        "dvi-bin/src/dvitools.rs command line glue",
+    ],
+    "assumptions": ["CBMC bit-precise semantics of the Rust MIR that Kani generates for crates/dvi"],
+}
+
+
 def props():
     return PROPS
